@@ -609,6 +609,18 @@ func (g *declGen) cmd(c *Cmd, depth int) {
 			c.G.Groups = append(c.G.Groups, gr)
 		}
 	}
+	// options added with AddOption to the command's own group (for the root: the
+	// parser's own group, addressed by the entries before any INI section header)
+	if !c.ByTag && cfg.ViaAdd > 0 && pct(t, "ownGroupAdd", cfg.ViaAdd) {
+		for i, n := 0, rapid.IntRange(1, 2).Draw(t, "nOwnAdd"); i < n; i++ {
+			o := g.opt(ns, "")
+			if o.Base != 0 || o.Unquote != "" || len(o.Initial) > 0 {
+				continue
+			}
+			o.ViaAdd, o.Field = true, ""
+			c.G.Options = append(c.G.Options, o)
+		}
+	}
 	// namespaces of the command itself (assignable in code only); the root's
 	// long-name namespace is left alone: it would rename the built-in help flag
 	if cfg.Ns && !root && !cfg.NoPtr && pct(t, "cmdNs", 8) {
